@@ -170,6 +170,7 @@ class LogsDriver:
                 kw["logger"] = self._own_logger(sid)
             if owntrace:
                 kw["trace_id"] = f"T{sid}"
+            w.do(str(t), "tryu")     # a catch-all right outside the block (it survives a cancellation of the block)
             w.do(str(t), "xscope", sid % 2 == 0, sid, lab, kw)
             self.lines[:] = []
             w.do(str(t), "call", lambda: ctx.log_info("plain message"))   # probe through the scope just entered
@@ -178,7 +179,11 @@ class LogsDriver:
             t = args[0]
             sid = self.stack[t].pop()
             self.cur[t] = self.parent_of_task_scope(t, sid)
-            w.do(str(t), "leave", "return")
+            if len(args) > 1 and args[1] == "cancel":
+                w.cancel(str(t))                    # cancelled inside the block, caught right outside it
+            else:
+                w.do(str(t), "leave", "return")     # the block ...
+                w.do(str(t), "leave", "return")     # ... and the catch-all around it
             self.lines[:] = []
             return self._fin(dict(lg=dict(kind="none", s=0), lvl="none", tr=dict(given=False, s=0), label="none", ident=0,
                                   text="none", exc=False, res="ok"), t)
@@ -270,7 +275,7 @@ def gen_trace(rnd, ntasks=4, nscopes=10, nops=40):
                 nsid += 1
                 stack[t].append(nsid)
             elif name == "Close":
-                args = [t]
+                args = [t, rnd.choice(["return", "return", "cancel"])]
                 stack[t].pop()
             elif name == "Start":
                 born += 1
@@ -291,7 +296,7 @@ TRACE_KW = dict(
     variables=["par", "phase", "label", "lg", "tr", "cur", "stack", "saved", "alive", "nops", "obs"],
     constants=dict(NTasks=4, N=10, MaxOps=100000, Labels='{"plain", "empty", "fmt", "pct"}',
                    Levels='{"debug", "info", "warning", "error"}', Bug='"none"'),
-    config_vars=[], actions=dict(Open=4, Close=1, Log=4, Start=2),
+    config_vars=[], actions=dict(Open=4, Close=2, Log=4, Start=2),
     invariants=["LoggerRule", "TraceInherited", "LineSane"])
 
 
